@@ -170,6 +170,12 @@ def execute_and_validate(res: Result, tasks: list[dict], invariants: list[str], 
     os.makedirs(wd)
     tf = os.path.join(wd, "traces.ndjson")
     gen.record_many(tasks, tf)
+    validate_recorded(res, tf, wd, invariants, label, nontrivial, sample_n)
+
+
+def validate_recorded(res: Result, tf: str, wd: str, invariants: list[str], label: str, nontrivial, sample_n: int = 3,
+                      engine: str = "sd") -> None:
+    """validate an ndjson file of recorded SD traces with SDTrace.tla and turn rejected traces into replayable violations"""
     out = tlc.validate_traces(tf, "SDTrace", CONF_CLAUSES + invariants + DIAGNOSTICS, wd)
     note_deviations(res, out)
     traces = {}
@@ -219,7 +225,7 @@ def execute_and_validate(res: Result, tasks: list[dict], invariants: list[str], 
             with open(os.path.join(vd, "trace.json"), "w") as f:
                 json.dump(tr, f)
             with open(os.path.join(vd, "verdict.json"), "w") as f:
-                json.dump({"property": res.pid, "failing": [{"invariant": i, "event": l, "op": o} for (i, l, o) in unexplained],
+                json.dump({"property": res.pid, "engine": engine, "failing": [{"invariant": i, "event": l, "op": o} for (i, l, o) in unexplained],
                            "calls": trace_signature(tr, len(tr["events"])), "net": tr["net"],
                            "replay": f"cd /verif && ./check {res.pid} --replay {vd}"}, f, indent=1)
             res.violations.append(vd)
